@@ -527,11 +527,11 @@ class Run:
         if reverse:
             kw = OrderedDict(reversed(list(kw.items())))
         if via_prop:
-            atoms = self.am.Atoms(prop=dict(kw))
+            atoms = self.guarded(lambda: self.am.Atoms(prop=dict(kw)), kw, 'Atoms(prop=...)')
         elif safecopy:
-            atoms = self.am.Atoms(safecopy=True, **kw)
+            atoms = self.guarded(lambda: self.am.Atoms(safecopy=True, **kw), kw, 'Atoms(..., safecopy=True)')
         else:
-            atoms = self.am.Atoms(**kw)
+            atoms = self.guarded(lambda: self.am.Atoms(**kw), kw, 'Atoms(...)')
         return atoms, rows, schema
 
     def r2c(self, rel):
@@ -647,7 +647,7 @@ class Run:
         for o in objs:
             if isinstance(o, np.ndarray):
                 done = scribble(o) or done
-            elif hasattr(o, 'view'):
+            elif hasattr(o, 'view') and hasattr(o, 'natoms'):
                 for arr in o.view.values():
                     done = scribble(arr) or done
             elif isinstance(o, list) and o:
@@ -993,7 +993,7 @@ class Run:
         src = M.Src(op['vals'], whole=whole_of(op['aslist']), mode=vm)
         name = FLOAT3[op['name'] % 2]
         spec = op['idx']
-        if name not in m.schema and spec['k'] != 'all':
+        if name not in m.schema and (spec['k'] != 'all' or op.get('aid')):
             name = 'pos'
         form, idx, sel = self.resolve(spec, force_int=bool(op.get('aid')))
         if form == 'all':
@@ -1602,8 +1602,8 @@ class Run:
         name = list(schema)[op['name'] % len(schema)]
         kind, tshape = schema[name]
         act = op['act'] % 5
-        if act in (1, 2) and (not free or kind == 's' or n == 0):
-            act = 0
+        if act in (1, 2) and (not free or kind == 's' or n == 0 or not obj.view[name].flags.writeable):
+            act = 0         # (an argument the harness built from a read-only array rightly refuses writes)
         w = '%s: call on another object (%s)' % (self.where, what)
         if act == 0:
             got = obj.prop(key=name)
@@ -1665,13 +1665,16 @@ class Run:
         elif w == 'atype0':
             vals = [1] * n
             vals[op['a'] % n] = 0 if op['a'] % 2 else -1
-            if afc(op['aslist']) in (5, 7) and not (self.narrow and min(vals) < 0 and atoms.view['atype'].dtype.kind == 'u'):
+            if afc(op['aslist']) in (5, 7) or (op['a'] // 2) % 2:
                 # class C: the offending values in every integer dtype - a zero in an unsigned one included (variants of form 5;
-                # form 7: big-endian)
+                # form 7: big-endian; otherwise the dtype is taken from the op's numbers)
                 if afc(op['aslist']) == 5:
                     vals = int_typed(np.array(vals, dtype=np.int64), 't', afv(op['aslist']), self.labels)
-                else:
+                elif afc(op['aslist']) == 7:
                     vals = narrow_typed(np.array(vals, dtype=np.int64), 't', afv(op['aslist']), self.labels)
+                else:
+                    names = ['uint8', 'int8', 'uint16', 'uint64', 'uint32'] if min(vals) >= 0 else ['int8', 'int16', 'int32']
+                    vals = np.array(vals, dtype=names[op['name'] % len(names)])
                 if isinstance(vals, np.ndarray):
                     self.labels.add('refuse:atype0:typed')
                     if vals.dtype.kind == 'u':
@@ -1788,7 +1791,7 @@ OPS = {
     'side': FD({'op': J('side'), 'fresh': st.sampled_from([0, 0, 0, 1, 2]), 'k': I(0, 11), 'count': I(0, 5), 'pbits': I(0, 1023), 'name': NAME,
                 'act': I(0, 4), 'vals': VALS, 'tmax': TMAX}),
     'df': FD({'op': J('df'), 'via': st.sampled_from(['atoms', 'system', 'scaled'])}),
-    'refuse': FD({'op': J('refuse'), 'which': st.sampled_from(['badlen', 'badlen', 'badlen', 'atype0', 'atype0', 'aid_index', 'aid_index_scaled',
+    'refuse': FD({'op': J('refuse'), 'which': st.sampled_from(['badlen', 'badlen', 'badlen', 'atype0', 'atype0', 'atype0', 'aid_index', 'aid_index_scaled',
                                                                'value_not_atoms', 'value_not_atoms_scaled', 'mismatch', 'mismatch', 'ix_not_atoms',
                                                                'extend_type', 'extend_int_scale', 'scale_type']),
                   'name': NAME, 'a': I(0, 11), 'vals': VALS, 'aslist': AF}),
@@ -1807,8 +1810,165 @@ def history_cases():
     return HISTORY
 
 
+# ----------------------------------------------------------------------------- class H: enumerated option combinations
+# The history clause SAMPLES the options of every entry point; here they are ENUMERATED, through the same interpreter and the
+# same oracles: (1) every combination of the options of one call (selector spelling x route x value form x scale x a_id x adopt ...
+# for prop / atoms_prop / __getitem__ / __setitem__ / atoms_ix, value kind x scale x symbols x safecopy x equal count x property
+# order for extend / atoms_extend, constructor x scale x safecopy x symbols x masses x storage dtypes for the System), and
+# (2) every ORDERED pair of a fixed alphabet of operations that touch the same state (per-atom arrays, number of atom types,
+# symbols / masses, the object identity after extend / extraction), thorough tier: also every ordered triple of the operations
+# that touch the per-type state, on two different initial objects.
+RD0 = {'o': 0, 'skip': 0}
+RDQ = {'o': 0, 'skip': 63}
+CANON_INIT = [
+    {'n': 2, 'ctor': 'arrays', 'props': 27, 'vals': [3, -5, 17, 2], 'box': 2, 'pbc': [True, True, False], 'scale': False,
+     'symbols': ['Al', 'Cu'], 'masses': None, 'safecopy': False, 'af': None, 'rd': RD0, 'sd': 0, 'mut': True},
+    {'n': 0, 'ctor': 'natoms', 'props': 0, 'vals': [1], 'box': 1, 'pbc': [False, True, True], 'scale': True,
+     'symbols': None, 'masses': [27.0], 'safecopy': True, 'af': None, 'rd': RDQ, 'sd': 0, 'mut': False},
+]
+CANON_IDX = [{'k': 'all'}, {'k': 'int', 'a': 1, 'np': False}, {'k': 'neg', 'a': 0, 'np': True}, {'k': 'slice', 'a': None, 'b': 2, 'c': None},
+             {'k': 'list', 'l': [2, 0, 2], 'np': False}, {'k': 'mask', 'a': 5, 'np': True}, {'k': 'perm', 'p': 1, 'f': 'list', 'sh': 0, 'np': False}]
+
+
+def _op(kind, **kw):
+    base = {
+        'set': {'via': 'attr', 'name': 3, 'mode': 'full', 'vals': [5, -9, 2], 'aslist': 0, 'tmax': 3, 'mut': 0, 'vm': None},
+        'setidx': {'via': 'prop', 'name': 3, 'idx': CANON_IDX[1], 'vmode': 'many', 'vals': [7, 1, -4], 'aslist': 0, 'tmax': 3, 'mut': 0, 'vm': None},
+        'scaled_set': {'name': 0, 'idx': CANON_IDX[0], 'vmode': 'many', 'vals': [2, -3, 5, 1], 'aslist': 0, 'mut': 0, 'vm': None, 'aid': False},
+        'get': {'via': 'prop', 'name': 1, 'idx': CANON_IDX[0]},
+        'getatoms': {'via': 'getitem', 'idx': CANON_IDX[3], 'adopt': False},
+        'extend': {'via': 'atoms', 'what': 'atoms', 'count': 1, 'same': False, 'pbits': 3, 'vals': [4, -1, 6], 'aslist': 0, 'tmax': 3,
+                   'scale': False, 'symbols': None, 'safecopy': False, 'mut': 0, 'vm': None, 'eq': 0},
+        'setitem': {'via': 'atoms', 'idx': CANON_IDX[1], 'vmode': 'many', 'vals': [-2, 8, 3], 'aslist': 0, 'tmax': 3, 'reverse': False,
+                    'mut': 0, 'vm': None, 'aid': False, 'dbox': None},
+        'setself': {'via': 'atoms', 'a': 0, 'b': 1, 'k': 1, 'perm': None},
+        'ptype': {'name': 1, 'mode': 'all', 't': 0, 'vals': [9, -6, 4], 'aslist': 0, 'nptype': False, 'mut': 0, 'vm': None},
+        'symbols': {'syms': ['Fe', 'O', 'H'], 'astuple': False, 'mut': 0},
+        'masses': {'masses': [56, None], 'fit': True, 'astuple': False, 'mut': 0},
+        'pbc': {'p': [False, True, False], 'form': 'list', 'mut': 1},
+        'df': {'via': 'scaled'},
+        'side': {'fresh': 2, 'k': 0, 'count': 0, 'pbits': 3, 'name': 1, 'act': 1, 'vals': [3, 4], 'tmax': 2},
+        'refuse': {'which': 'mismatch', 'name': 0, 'a': 1, 'vals': [1], 'aslist': 0},
+    }[kind]
+    rd = kw.pop('rd', RD0)
+    return dict(base, op=kind, rd=rd, **kw)
+
+
+def _alphabet():
+    """operations touching the same state, one or a few per entry point and route"""
+    return [
+        _op('set'), _op('set', via='view', name=4, mode='scalar'), _op('set', via='prop', name=0, tmax=4, mut=2),
+        _op('set', via='sysprop', name=1, mode='len1', vm='tiny'), _op('set', via='attr', name=0, tmax=6, rd=RDQ),
+        _op('setidx'), _op('setidx', via='sysprop', name=6, idx=CANON_IDX[4], vm='dec'), _op('setidx', via='a_id', name=0, tmax=4, vmode='one'),
+        _op('setidx', via='view', name=2, idx=CANON_IDX[5], mut=2),
+        _op('scaled_set'), _op('scaled_set', idx=CANON_IDX[1], aid=True, vmode='one'), _op('scaled_set', name=1, idx=CANON_IDX[3], vmode='one', vm='dec'),
+        _op('get'), _op('get', via='a_id', idx=CANON_IDX[1]), _op('get', via='scaled', idx=CANON_IDX[4]), _op('get', via='sysprop', idx=CANON_IDX[2], name=0),
+        _op('getatoms', adopt=True), _op('getatoms', via='atoms_ix', idx=CANON_IDX[1], adopt=True), _op('getatoms', via='prop', idx=CANON_IDX[4]),
+        _op('getatoms', via='scaled'), _op('getatoms', via='deepcopy_sys', adopt=True),
+        _op('extend', what='int'), _op('extend', via='system', scale=True, symbols=['Ni', 'Al', 'Cu', 'H'], safecopy=True, mut=1),
+        _op('extend', pbits=1023, mut=1), _op('extend', via='system', eq=2, same=True, scale=True),
+        _op('setitem'), _op('setitem', via='ix_system', idx=CANON_IDX[3], dbox=20, mut=1), _op('setitem', via='sysprop_scaled', aid=True),
+        _op('setitem', via='prop', idx=CANON_IDX[4], vmode='one', reverse=True, tmax=6),
+        _op('setself'), _op('setself', via='ix', perm={'p': 1, 'f': 'slice', 'sh': 0, 'np': False}),
+        _op('ptype', name=9), _op('ptype', mode='one', name=3, t=1, nptype=True),
+        _op('symbols'), _op('symbols', syms='Cu', rd=RDQ), _op('masses'), _op('masses', masses=63.5, rd=RDQ), _op('pbc'),
+        _op('df'), _op('side'), _op('side', fresh=0, act=0, k=1), _op('refuse'),
+    ]
+
+
+def _state_ops():
+    """the operations that touch the per-type state (number of atom types, symbols, masses) and the reads that fill it lazily"""
+    return [
+        _op('set', via='attr', name=0, tmax=6, rd=RDQ), _op('set', via='prop', name=0, tmax=2),
+        _op('setidx', via='a_id', name=0, tmax=6, vmode='one', rd=RDQ), _op('setitem', via='prop', idx=CANON_IDX[4], vmode='one', tmax=6),
+        _op('symbols'), _op('symbols', syms='Cu', rd=RDQ), _op('symbols', syms=[], rd=RD0),
+        _op('masses'), _op('masses', masses=63.5, rd=RDQ), _op('masses', masses=[1, 2, 3, 4, 5], fit=False),
+        _op('extend', via='system', symbols=['Ni', 'Al', 'Cu', 'H'], rd=RDQ), _op('extend', via='system', what='int'),
+        _op('getatoms', via='atoms_ix', idx=CANON_IDX[1], adopt=True), _op('getatoms', via='deepcopy_sys', adopt=True, rd=RDQ),
+        _op('ptype', name=9), _op('df'),
+    ]
+
+
+def _grid():
+    """every combination of the options of one call"""
+    ops = []
+    for idx in CANON_IDX:
+        for via in ('prop', 'a_id', 'sysprop', 'scaled'):
+            for name in (0, 1):
+                ops.append(_op('get', via=via, idx=idx, name=name))
+        for via in ('prop', 'sysprop', 'a_id', 'view'):
+            for vmode in ('one', 'many'):
+                for af in (0, True, 35):
+                    ops.append(_op('setidx', via=via, idx=idx, vmode=vmode, aslist=af, name=4, mut=2))
+        for vmode in ('one', 'many'):
+            for aid in (False, True):
+                for name in (0, 1):
+                    ops.append(_op('scaled_set', idx=idx, vmode=vmode, aid=aid, name=name, mut=1))
+        for via in ('getitem', 'atoms_ix', 'prop', 'a_id', 'sysprop', 'scaled', 'deepcopy', 'deepcopy_sys'):
+            for adopt in (False, True):
+                ops.append(_op('getatoms', via=via, idx=idx, adopt=adopt))
+        for via in ('atoms', 'ix_atoms', 'ix_system', 'prop', 'sysprop', 'sysprop_scaled'):
+            for vmode in ('one', 'many'):
+                for aid in (False, True):
+                    for reverse in (False, True):
+                        ops.append(_op('setitem', via=via, idx=idx, vmode=vmode, aid=aid, reverse=reverse, mut=1))
+    for via in ('atoms', 'system'):
+        for what in ('int', 'atoms'):
+            for scale in (False, True):
+                for symbols in (None, ['Ni', 'Al', 'Cu', 'H']):
+                    for safecopy in (False, True):
+                        for same in (False, True):
+                            for eq in (0, 1, 2):
+                                ops.append(_op('extend', via=via, what=what, scale=scale, symbols=symbols, safecopy=safecopy, same=same, eq=eq, mut=1))
+    for mode in ('all', 'one', 'short', 'absent'):
+        for name in (3, 9):
+            for nptype in (False, True):
+                for af in (0, True, 4):
+                    ops.append(_op('ptype', mode=mode, name=name, nptype=nptype, aslist=af, t=1))
+    return ops
+
+
+def options_cases(tier):
+    cases = []
+    alpha = _alphabet()
+    inits = CANON_INIT if tier == 'thorough' else CANON_INIT[:1]
+    for init in inits:
+        for a in alpha:
+            for b in alpha:
+                cases.append({'init': init, 'fin': RD0, 'ops': [a, b], 'h': 'pair'})
+    for init in inits:
+        for o in _grid():
+            cases.append({'init': init, 'fin': RD0, 'ops': [o], 'h': 'grid'})
+    # the constructors
+    for ctor in ('natoms', 'bcast', 'lists', 'arrays', 'prop'):
+        for scale in (False, True):
+            for safecopy in (False, True):
+                for symbols in (None, 'Al', ['Al'], ['Al', 'Cu', 'Fe', 'O', 'H']):
+                    for masses in (None, [27.0], [27, None, 55.75]):
+                        for sd in (0, 1, 3):
+                            if sd and ctor not in ('arrays', 'prop'):
+                                continue
+                            init = dict(CANON_INIT[0], ctor=ctor, scale=scale, safecopy=safecopy, symbols=symbols, masses=masses, sd=sd, rd=RDQ)
+                            cases.append({'init': init, 'fin': RD0, 'ops': [_op('get', via='scaled', idx=CANON_IDX[4]), _op('extend', via='system', what='int')], 'h': 'ctor'})
+    if tier == 'thorough':
+        st3 = _state_ops()
+        for init in CANON_INIT:
+            for a in st3:
+                for b in st3:
+                    for c in st3:
+                        cases.append({'init': init, 'fin': RDQ, 'ops': [a, b, c], 'h': 'triple'})
+    return cases
+
+
+def oracle_options(case):
+    labels = set(oracle_history(case))
+    labels.add('h:' + case['h'])
+    labels.add('nt')
+    return labels
+
+
 CLAUSES = [
-    Clause('history', oracle_history, history_cases, quick=3600, thorough=90000,
+    Clause('history', oracle_history, history_cases, quick=3300, thorough=100000,
            min_share={'nt': 0.18, 'ext_then_write': 0.17, 'ptype_after_growth': 0.07, 'scaled_ext': 0.007, 'type_growth': 0.2,
                       'idx:-1': 0.09, 'idx:empty': 0.13, 'idx:mask': 0.17, 'idx:repeat': 0.09, 'idx:step': 0.11,
                       'selfset_overlap': 0.07, 'adopt_sub': 0.09, 'probe_get_copy': 0.17, 'probe_extract_copy': 0.12,
@@ -1823,4 +1983,9 @@ CLAUSES = [
            desc='edit histories on one System/Atoms pair against a record-per-atom model: rectangular, row-aligned, model-equal, '
                 'atype >= 1, symbols/masses long enough after every step; copying accessors do not alias; operands of '
                 'new-object operations unchanged; refusals leave the state unchanged'),
+    Clause('options', oracle_options, enumerate=options_cases, quick=1, thorough=1,
+           min_share={'h:pair': 0.12, 'h:grid': 0.06, 'h:ctor': 0.015},
+           desc='the same interpreter and oracles on ENUMERATED histories: every combination of the options of one call of every '
+                'entry point, every constructor option combination, every ordered pair (thorough: per-type state triples) of a '
+                'fixed alphabet of operations touching the same state'),
 ]
